@@ -358,18 +358,19 @@ Lemma fill_box2 c x y : fillk_box2 c = FillBinary -> fill_pure (CIBox2 c) [x; y]
 Proof. intros H1. unfold fill_pure. cbn [comp_fill_kind]. now rewrite H1. Qed.
 
 (* the parser's placeholder search finds exactly the index the formatter's iterator used, PROVIDED no
-   component is itself a placeholder (otherwise: K1_witness below) *)
+   component before that index is itself a placeholder (otherwise: K1_witness below) *)
 Lemma split_img_iter idx l : forall now i0,
-  now <= idx -> idx <= now + nlen l -> has_placeholder l = false ->
+  now <= idx -> idx <= now + nlen l -> has_placeholder (take (N.to_nat (idx - now)) l) = false ->
   split_placeholder i0 (img_iter_gen placeholder now idx l) = Some (i0 + (idx - now), l).
 Proof.
   induction l as [|x l IH]; intros now i0 H1 H2 Hp; cbn [img_iter_gen].
   - unfold nlen in H2; cbn [length] in H2. destruct (N.eqb_spec now idx) as [->|]; [|lia].
     cbn [split_placeholder]. rewrite term_eqb_refl. f_equal. f_equal. lia.
-  - cbn [has_placeholder existsb] in Hp. apply orb_false_iff in Hp as [Hx Hp].
-    destruct (N.eqb_spec now idx) as [->|Hne].
+  - destruct (N.eqb_spec now idx) as [->|Hne].
     + rewrite img_iter_gt by lia. cbn [split_placeholder]. rewrite term_eqb_refl. f_equal. f_equal. lia.
-    + cbn [split_placeholder]. rewrite Hx. rewrite IH; [|lia| |assumption].
+    + replace (N.to_nat (idx - now)) with (S (N.to_nat (idx - (now + 1)))) in Hp by lia.
+      cbn [take has_placeholder existsb] in Hp. apply orb_false_iff in Hp as [Hx Hp].
+      cbn [split_placeholder]. rewrite Hx. rewrite IH; [|lia| |exact Hp].
       * f_equal. f_equal. lia.
       * unfold nlen in *; cbn [length] in H2. lia.
 Qed.
@@ -502,7 +503,7 @@ Section Desugar.
       { exfalso. revert Hz. apply img_iter_nonnil; lia. }
       rewrite <- Hz. apply fill_img.
       + destruct (fillk_img c); try discriminate; reflexivity.
-      + rewrite split_img_iter by (try assumption; lia). f_equal. f_equal. lia.
+      + rewrite split_img_iter; [|lia|lia|rewrite N.sub_0_r; exact Hph]. f_equal. f_equal. lia.
     - (* unary *)
       destruct (IH Hw) as (x & Hx & Hd). rewrite Hx.
       specialize (Cbox1 c). unfold cover_box1 in Cbox1. apply andb_true_iff in Cbox1 as [Hs Hk].
@@ -542,8 +543,17 @@ Proof.
     (split; [vm_compute; reflexivity|]); vm_compute; discriminate.
 Qed.
 
+(* the exclusion is tight: a placeholder AT or AFTER the index is harmless (same text, index 0) *)
+Example ex_k1_boundary : forall (is_alnum : N -> bool) (E : efmt), In E shipped_formats ->
+  let t := TImg ImageExtension 0 [placeholder; TNum Interval 1] in
+  wf_term is_alnum E t = true /\ fmt_term E t = fmt_term E k1_term.
+Proof.
+  intros is_alnum E HE. cbn [shipped_formats In] in HE.
+  destruct HE as [<-|[<-|[<-|[]]]]; vm_compute; split; reflexivity.
+Qed.
+
 (* ================================================================================== *)
-(* 4. nesting depth vs. length of the text                                             *)
+(* 4. nesting depth vs. length of the text                                            *)
 Lemma render_set_eq E ext a g items b :
   render E (SSet ext a g items b) =
   set_lb E ext ++ sp E a ++ render_items E (render E) g false 0 items ++ sp E b ++ set_rb E ext.
@@ -791,7 +801,7 @@ Lemma wf_term_meaning : forall (is_alnum : N -> bool) (E : efmt) (t : term),
   | TNum _ i => i <=? usize_max
   | TSet _ l => nonnil l && forallb (wf_term is_alnum E) l && nodup_eqb l
   | TVec _ l => nonnil l && forallb (wf_term is_alnum E) l
-  | TImg _ i l => (i <=? nlen l) && forallb (wf_term is_alnum E) l && negb (existsb (fun x => term_eqb x placeholder) l)
+  | TImg _ i l => (i <=? nlen l) && forallb (wf_term is_alnum E) l && negb (existsb (fun x => term_eqb x placeholder) (take (N.to_nat i) l))
   | TBox1 _ a => wf_term is_alnum E a
   | TBox2 _ a b => wf_term is_alnum E a && wf_term is_alnum E b
   end.
